@@ -442,6 +442,24 @@ def rule_language_and_case(ck: Check, repo: Repo, folder: Folder, rid: str = "R5
                     fold_calls.append((q, ast.unparse(n), repo.loc(n)))
                 else:
                     control += 1
+    # the expression parser itself: license_expression.Licensing() WITHOUT known symbols keeps every key as written;
+    # given a symbol table it switches to a tokenizer that matches the known symbols case-insensitively and rewrites them
+    # to their canonical spelling (library semantics, table T2): `classpath-exception-2.0` then counts as the SPDX
+    # identifier `Classpath-exception-2.0` - neither bad nor missing
+    n_lic = 0
+    for m in repo.modules.values():
+        for c in ast.walk(m.tree):
+            if isinstance(c, ast.Call) and ast.unparse(c.func).split(".")[-1] == "Licensing":
+                n_lic += 1
+                has_symbols = bool(c.args) or any(kw.arg in ("symbols",) for kw in c.keywords)
+                r.instance(f"parser:{m.name}:{ast.unparse(c)[:40]}", {"module": m.name, "call": ast.unparse(c)[:80], "symbol_table": has_symbols})
+                if has_symbols:
+                    r.violation(m.name, "the expression parser is given a table of known symbols",
+                                f"`{ast.unparse(c)[:70]}`: license_expression matches known symbols case-insensitively and replaces them"
+                                " by the table's spelling, so a wrongly cased identifier (`classpath-exception-2.0`, `mit`) is silently"
+                                " corrected before it is classified - identifiers are case-sensitive", f"{m.rel}:{c.lineno}")
+    if n_lic < 1:
+        raise AnalysisError("no Licensing(...) construction found (anchor vanished)")
     r.instance("case-folding-calls", {"on_lint_path": fold_calls, "elsewhere(positive control)": control})
     if control < 1:
         raise AnalysisError("C06-R5 positive control failed: no case-folding call found anywhere (comment.py/download.py use .lower())")
